@@ -1,9 +1,159 @@
-(* Properties_C61.v — statements only; proofs are in MgrProofs.v *)
-Require Import SquidV.Bytes SquidV.MgrModel SquidV.MgrProofs.
+(* Properties_C61.v — C61: the cache manager enforces http_access and cachemgr_passwd.
+   Statements only; proofs are in MgrProofs.v, the model (a transcription of the code) in MgrModel.v. *)
+Require Import SquidV.Bytes SquidV.B64Model SquidV.MgrModel SquidV.MgrProofs.
+Require Import SquidV.gen.Mgr_gen.
 
+(* The built-in ACL read from src/cf.data.pre today has the shape the model transcribes:
+   `url_regex`, case-sensitive (+i), `^[^:]+://[^/]+` followed by a literal that is the manager URL prefix. *)
+Theorem C61_manager_acl_is_the_modelled_regex :
+  mgr_acl_shape_ok = true /\ mgr_regex_lit = mgr_prefix.
+Proof. exact (conj shape_ok lit_is_prefix). Qed.
+Print Assumptions C61_manager_acl_is_the_modelled_regex.
+
+(* The regex, as matched by regexec on a C string, for ALL byte strings: a non-empty colon-free scheme, "://",
+   a non-empty slash-free authority, then the literal. *)
+Theorem C61_manager_regex_meaning :
+  forall s, mgr_regex_match s = true <->
+    exists a b rest,
+      cstr s = a ++ [58;47;47] ++ b ++ mgr_regex_lit ++ rest
+      /\ a <> [] /\ forallb nocolon a = true
+      /\ b <> [] /\ forallb noslash b = true.
+Proof. exact regex_match_iff. Qed.
+Print Assumptions C61_manager_regex_meaning.
+
+(* http_access semantics of the model: the first line all of whose ACLs match decides ... *)
+Theorem C61_http_access_first_match :
+  forall mgr local pre r post,
+    forallb (fun x => negb (rule_matches mgr local x)) pre = true -> rule_matches mgr local r = true ->
+    access_allowed mgr local (pre ++ r :: post) = r_allow r.
+Proof. intros; apply eval_rules_first; assumption. Qed.
+Print Assumptions C61_http_access_first_match.
+
+(* ... and when none matches, the answer is the reverse of the last line (deny when there is no line at all). *)
+Theorem C61_http_access_implicit_default :
+  forall mgr local rules,
+    forallb (fun x => negb (rule_matches mgr local x)) rules = true ->
+    access_allowed mgr local rules = match rev rules with r :: _ => negb (r_allow r) | [] => false end.
+Proof. intros; unfold access_allowed; rewrite eval_rules_none by assumption; reflexivity. Qed.
+Print Assumptions C61_http_access_implicit_default.
+
+(* (1) Whatever the cache manager itself answers (report, index page, password challenge, its own 404) is
+   answered only if http_access allowed the request, `manager` being the built-in ACL on the decoded URI. *)
 Theorem C61_manager_answer_requires_http_access :
   forall e menu pl rules q,
     mgr_answer (handle e menu pl rules q) = true ->
     access_allowed (acl_manager q) (e_local e) rules = true.
 Proof. exact answer_requires_access. Qed.
 Print Assumptions C61_manager_answer_requires_http_access.
+
+(* (2) Every request the cache manager would handle matches the `manager` ACL -- when the effective URI carries
+   no user-info (http, https; ftp without login). *)
+Theorem C61_manager_acl_covers_manager_requests_partial :
+  forall e q,
+    host_ok (e_myhost e) -> no_userinfo q -> q_scheme q <> SOther ->
+    is_internal e q = true -> for_cache_manager q = true ->
+    acl_manager q = true.
+Proof. intros e q Hh Hn Hs Hi Hf. exact (acl_covers e q Hi Hf Hs (no_userinfo_part q Hn) Hh). Qed.
+Print Assumptions C61_manager_acl_covers_manager_requests_partial.
+
+(* ... hence `http_access deny manager` as the first line refuses them all: no cache-manager answer of any kind,
+   for all action tables, passwords, later rules and requests without user-info. *)
+Theorem C61_deny_manager_blocks_manager_requests_partial :
+  forall e menu pl rest q,
+    host_ok (e_myhost e) -> no_userinfo q ->
+    mgr_answer (handle e menu pl (mkRule false [AMgr] :: rest) q) = false.
+Proof. exact deny_manager_blocks. Qed.
+Print Assumptions C61_deny_manager_blocks_manager_requests_partial.
+
+(* The same statement without the user-info restriction is FALSE for the code as it is:
+   GET ftp://a%2Fb@verif.test:3128/squid-internal-mgr/menu under `deny manager` / `allow all` is an internal
+   manager request that the ACL does not match, and the report is produced; without the user-info it is denied.
+   (Finding C61-manager-acl-ftp-userinfo, replayed against the running squid by the check.) *)
+Theorem C61_deny_manager_blocks_manager_requests_refuted :
+  exists e menu pl rest q,
+    host_ok (e_myhost e)
+    /\ is_internal e q = true /\ for_cache_manager q = true /\ acl_manager q = false
+    /\ handle e menu pl (mkRule false [AMgr] :: rest) q = RReport s_menu.
+Proof.
+  exists w_env, w_menu, [], [mkRule true [AAll]], w_bypass.
+  destruct bypass_witness as (H1 & H2 & H3 & H4 & H5 & _). repeat split; assumption.
+Qed.
+Print Assumptions C61_deny_manager_blocks_manager_requests_refuted.
+
+(* (3) The action performed is the one the URL names (path after the prefix up to '?' or '#'), and it is in the table. *)
+Theorem C61_report_is_for_the_action_the_url_names :
+  forall e menu pl rules q n,
+    handle e menu pl rules q = RReport n -> path_ok q ->
+    (exists a, In a menu /\ a_name a = n)
+    /\ exists rest, q_path q = mgr_prefix ++ n ++ rest
+                    /\ forallb field_char n = true /\ n <> []
+                    /\ match rest with [] => True | c :: _ => field_char c = false end.
+Proof. exact report_names_action. Qed.
+Print Assumptions C61_report_is_for_the_action_the_url_names.
+
+(* (4) A report implies the password rule admitted it: the first cachemgr_passwd line naming the action (or `all`)
+   is not `disable`, and is either `none` or a password that the Authorization field carries (Basic, base64 of
+   user ":" pass, pass non-empty, equal to the configured password as a C string); with no such line the action
+   is not password-required. *)
+Theorem C61_report_respects_cachemgr_passwd :
+  forall e menu pl rules q n,
+    handle e menu pl rules q = RReport n -> path_ok q ->
+    (forall e0, first_covering pl n e0 ->
+       pe_passwd e0 <> kw_disable
+       /\ (pe_passwd e0 = kw_none
+           \/ exists f user pass, q_auth q = Some f /\ basic_credentials f user pass
+                                  /\ pass <> [] /\ cstr pass = cstr (pe_passwd e0)))
+    /\ (uncovered pl n -> exists a, In a menu /\ a_name a = n /\ a_pwreq a = false).
+Proof. exact report_respects_passwd. Qed.
+Print Assumptions C61_report_respects_cachemgr_passwd.
+
+(* Exact equality of the supplied and the configured password is FALSE for the code as it is: "secret" NUL "x"
+   is admitted for `cachemgr_passwd secret info` (finding C61-password-nul-suffix); the right password is admitted
+   and no password is challenged. *)
+Theorem C61_password_exact_refuted :
+  exists e menu pl rules q n e0,
+    first_covering pl n e0 /\ pe_passwd e0 <> kw_none
+    /\ handle e menu pl rules q = RReport n
+    /\ supplied_password (q_auth q) <> pe_passwd e0.
+Proof.
+  exists w_env, w_menu, w_pl, [mkRule true [AAll]], w_nul, s_info, (mkPw s_secret [s_info]).
+  destruct nul_witness as (H1 & H2 & H3 & _). repeat split; try assumption; [discriminate|].
+  rewrite H3. discriminate.
+Qed.
+Print Assumptions C61_password_exact_refuted.
+
+(* (5) Disabled actions, and password-required actions without a configured password, are never performed and not
+   even challenged: any answer about an action (report, index, 401) implies neither is the case. *)
+Theorem C61_disabled_and_hidden_actions_never_answered :
+  forall e menu pl rules q n,
+    answered_action (handle e menu pl rules q) = Some n -> path_ok q ->
+    (forall e0, first_covering pl n e0 -> pe_passwd e0 <> kw_disable)
+    /\ (uncovered pl n -> exists a, In a menu /\ a_name a = n /\ a_pwreq a = false).
+Proof. exact answered_not_disabled_nor_hidden. Qed.
+Print Assumptions C61_disabled_and_hidden_actions_never_answered.
+
+(* the declarative `first covering line` is what PasswdGet computes *)
+Theorem C61_first_covering_line_is_passwdget :
+  forall pl n,
+    (exists e0, first_covering pl n e0 /\ passwd_get pl n = Some (pe_passwd e0))
+    \/ (uncovered pl n /\ passwd_get pl n = None).
+Proof. exact passwd_get_cases. Qed.
+Print Assumptions C61_first_covering_line_is_passwdget.
+
+(* hypotheses are satisfiable and the statements are not vacuous *)
+Example C61_ex_hypotheses :
+  host_ok (e_myhost w_env) /\ path_ok w_good /\ no_userinfo w_plain /\ no_userinfo w_good /\ uncovered w_pl s_menu.
+Proof. destruct examples as (H1 & H2 & H3 & H4 & _). exact (conj w_host_ok (conj H1 (conj H2 (conj H3 H4)))). Qed.
+
+Example C61_ex_outcomes :
+  handle w_env w_menu w_pl [mkRule true [AAll]] w_good = RReport s_info
+  /\ handle w_env w_menu w_pl [mkRule true [AAll]] w_noauth = RAuthReq s_info
+  /\ handle w_env w_menu [] deny_manager_allow_all w_plain = RDenied
+  /\ handle w_env w_menu [mkPw kw_disable [s_menu]] [mkRule true [AAll]]
+       (mkReq MGet SHttp [] w_host 3128 (q_path w_bypass) None) = RNotFound
+  /\ handle w_env w_menu [] [mkRule true [AAll]]
+       (mkReq MGet SHttp [] w_host 3128 (mgr_prefix ++ s_shutdown) (q_auth w_good)) = RNotFound.
+Proof.
+  destruct nul_witness as (_ & _ & _ & H1 & H2). destruct bypass_witness as (_ & _ & _ & _ & _ & H3).
+  destruct examples as (_ & _ & _ & _ & _ & H4 & H5). repeat split; assumption.
+Qed.
